@@ -177,7 +177,10 @@ def check_c09(tier, seed):
         rule="case = the action list; non-trivial = at least one action clears part of L2's graph",
     )
     actions = ["L1.backward", "x.clear", "y.clear", "x[...]=c", "view-of-x*=c", "new-op", "new-op-backward"]
-    for L in range(0, maxlen + 1):
+    b.fail_cap = 100000  # every failing history is reported: the known finding F4 is an exact list, nothing may hide behind it
+    for L, dangling in itertools.product(range(0, maxlen + 1), (False, True)):
+        if dangling and L == maxlen and tier == "quick":
+            pass
         for hist in itertools.product(actions, repeat=L):
             xv = rng.uniform(1, 2, size=(3,))
             cv = rng.uniform(1, 2, size=(3,))
@@ -187,7 +190,10 @@ def check_c09(tier, seed):
             L1 = (y * 2.0).sum()
             L2 = (y * x).sum()  # recorded forward: sum(x*c*x) -> dL2/dx = 2*x*c, dL2/dc = x*x
             exp_x, exp_c = 2 * xv * cv, xv * xv
-            desc = dict(actions=list(hist))
+            desc = dict(actions=list(hist), dangling_views=dangling)
+            if dangling:
+                # live views of the shared tensors that belong to neither graph (the caller merely holds them)
+                keep_alive = (x[:2], y[1:], x[...])
             try:
                 for a in hist:
                     if a == "L1.backward":
